@@ -73,6 +73,7 @@ a regular expression, so the synchronization above could also be achieved with:
 
     dst_job.sync(src_job, doc_sync=sync.DocSync.ByKey('foo'))
 """
+import errno
 import logging
 import os
 import re
@@ -322,7 +323,21 @@ class _FileModifyProxy:
     def copytree(self, src, dst, **kwargs):
         """Copy tree src to dst."""
         logger.more(f"Copy tree '{_safe_relpath(src)}' -> '{_safe_relpath(dst)}'.")
-        shutil.copytree(src, dst, copy_function=self.copy, **kwargs)
+        if self.dry_run:
+            # shutil.copytree creates the directory tree at dst even if the copy
+            # function does nothing, so a dry run only reports the files and
+            # raises the errors that callers rely on to detect existing
+            # destinations and missing sources.
+            if not os.path.isdir(src):
+                raise FileNotFoundError(errno.ENOENT, os.strerror(errno.ENOENT), src)
+            if os.path.lexists(dst) and not kwargs.get("dirs_exist_ok", False):
+                raise FileExistsError(errno.EEXIST, os.strerror(errno.EEXIST), dst)
+            for dirpath, _, filenames in os.walk(src):
+                for fn in filenames:
+                    fn_src = os.path.join(dirpath, fn)
+                    self.copy(fn_src, os.path.join(dst, os.path.relpath(fn_src, src)))
+        else:
+            shutil.copytree(src, dst, copy_function=self.copy, **kwargs)
 
     @contextmanager
     def create_backup(self, path):
